@@ -290,7 +290,7 @@ func (g *Gen) block(sc *scope, t *Type, depth int) *Block {
 	var lets []*varInfo
 	for i := 0; i < n; i++ {
 		switch k := g.intn(13, "stmtKind"); {
-		case k == 12 && depth > 0 && g.pure == 0 && !g.P.Tinyfo:
+		case k == 12 && depth > 0 && g.pure == 0:
 			// a match whose arms have a value, written as a statement: the value is discarded and the
 			// block goes on (cmd/build_sample_md does this with the result of sys.WriteFile)
 			t2 := []*Type{TInt, TString, TBool}[g.intn(3, "discardType")]
